@@ -296,7 +296,9 @@ func main() {
 		Prop:   "C20",
 		Import: "Onet.Corr.C20",
 		Rule: "strings from a grammar of near-valid addresses (connection types x separators x IPv4/IPv6/host-name/empty/bracketed hosts x ports -1..70000 " +
-			"incl. signs, leading zeros, junk), byte-level mutations of those, arbitrary byte strings (incl. invalid UTF-8 and cased non-ASCII runes), " +
+			"incl. signs, leading zeros, junk; hosts containing the separator ://, its pieces and nested brackets), the separator and its pieces injected at every position " +
+			"of good addresses, every string over {t,c,p,:,/,[,],0,a,.} up to length 3 (4 thorough) and every network address over {:,/,[,],a} up to length 5 behind a good type with and without a port, " +
+			"byte-level mutations of those, arbitrary byte strings (incl. invalid UTF-8 and cased non-ASCII runes), " +
 			"combined with listen-address overrides and explicit URLs; the same generators feed the modelled standard-library functions directly; " +
 			"non-trivial = the call succeeded / the address is valid or at least contains the separator; distinct = distinct Coq case term",
 		Shard:    350,
